@@ -122,6 +122,27 @@ CLAIMS = {
          "with revm's (they are ghosts setting the documented status class here; the differential harness against revm-database's MIR was not "
          "built); db_basic / db_code_by_hash; real rayon scheduling in the bundle builder. 2 addresses x 2 slots, 8-bit values.",
     design="5/C10"),
+ "C12": dict(
+    text="Bounded model checking of the guard's own decision logic on the real code (guarded_create for CREATE and for CREATE2, "
+         "DelegatedSafetyConfig::for_spec; MIR -> C, revm's interpreter / host / contract::create uninterpreted): for every static flag, fork, "
+         "frame target, bytecode address and delegation / load-failure status of every address the result is StateChangeDuringStaticCall, "
+         "NotActivated (CREATE2 before Petersburg), FatalExternalError (the TARGET cannot be loaded), NotActivated (the TARGET carries a "
+         "delegation designator, whatever code the frame runs), else exactly one fall-through to revm's create with its result unchanged; "
+         "the policy is the configured one from Prague on and disabled before, for every fork.",
+    note=TRUST + "revm's contract::create, every other opcode and the gas table are stock revm: outside the claim; that build_evm swaps the "
+         "table iff the flag is set and the spec is >= Prague goes through revm's builder chain and is not encoded (the for_spec normalisation is).",
+    design="5/C12"),
+ "C13": dict(
+    text="Two engines on the real code. mir2c -> CBMC: WithReserveHandler::has_reserve_violation with the journal scan and planner as "
+         "solver-chosen oracles -- violation iff some surviving delegated debit has a non-zero future cost and a final balance below "
+         "min(balance before its first debit, future cost), queried with the handler's global transaction index. Kani (compiled crate, in-crate "
+         "harnesses behind cfg(kani)): is_root_value_transfer <=> BalanceTransfer from the caller of exactly tx.value to the CALL target (any "
+         "recipient for CREATE); balance_before_entry inverts every forward-applied pair of balance entries; the per-account suffix lookup "
+         "returns the entry of the first own transaction strictly after txid.",
+    note=TRUST + "Kani 0.68 (CBMC back end) with exact stand-ins for two x86 carry intrinsics used by ruint. NOT decided: the journal scan "
+         "delegated_debits_since as a whole (revm Journal internals), build_schedule's saturating sums over TxEnv::max_balance_spending, the "
+         "revert / refund / reimbursement call sequence of enforce_reserve, and the end-to-end funding guarantee over real EVM runs.",
+    design="5/C13"),
 }
 NA = {}
 props = [json.loads(l) for l in open(os.path.join(V, "properties.jsonl"))]
@@ -146,10 +167,11 @@ for p in props:
 m = {
  "version": 1,
  "setup_cmd": "./setup.sh",
- "hooks": {"guard": "--cfg galxe_grevm_verif", "enable": "not needed by the encodings: MIR is dumped with the guard off (production code)",
-           "baseline_off_cmd": "cd /repo && cargo test --workspace --no-fail-fast --offline", "source_commits": [], "add_only": True},
+ "hooks": {"guard": "cfg(kani)", "enable": "set by cargo-kani itself; the MIR encodings need no hook (the MIR is dumped from the production configuration)",
+           "baseline_off_cmd": "cd /repo && cargo test --workspace --no-fail-fast --offline", "source_commits": ["1e238ea"], "add_only": True},
  "engines": [{"name": "mir2c+cbmc", "path": "/verif/mir2c", "serves_properties": [c["property_id"] for c in checks],
-              "kind_free_text": "nightly MIR dump of /repo -> pointer-free C (translator + model library) -> CBMC 6.11 bounded model checking with native threads"}],
+              "kind_free_text": "nightly MIR dump of /repo -> pointer-free C (translator + model library) -> CBMC 6.11 bounded model checking (native threads, or context-bounded injection)"},
+             {"name": "kani", "path": "/verif/kani", "serves_properties": ["C13"], "kind_free_text": "Kani 0.68 proof harnesses over the compiled crate (cfg(kani) hook in src/delegated_safety/reserve.rs)"}],
  "checks": checks,
  "not_applicable": na,
  "notes": "exit 0 = decided, holds within bounds; exit 1 = VIOLATION; exit 2 = inconclusive (translation gap, bound exceeded, solver limit) and is never reported as a pass.",
